@@ -598,10 +598,86 @@ func exhaustive(g *core.G) {
 	}
 }
 
+// every two-level chain: parent attribute `a` from the 6 shapes with equality absent / on `a`, child attribute `b` from the
+// 6 shapes (or none) with equality absent / on `b`, include-type absent / false on both; objects of the child that
+// differ from a base tuple in exactly one position (so that every equality attribute, inherited or own, at whatever
+// position the layout gives it, decides at least one comparison), their named twins, the required-only forms, and
+// objects of the parent
+func exhaustive2(g *core.G) {
+	tInt := &ty{k: "int"}
+	tOpt := &ty{k: "opt", elt: tInt}
+	shapes := func(n string) []attr {
+		return []attr{
+			{name: n, ty: tInt, kind: "n"},
+			{name: n, ty: tInt, kind: "n", dflt: iv(1)},
+			{name: n, ty: tOpt, kind: "n"},
+			{name: n, ty: tInt, kind: "g"},
+			{name: n, ty: tInt, kind: "c", dflt: iv(7)},
+			{name: n, ty: tInt, kind: "d"},
+		}
+	}
+	for _, a := range shapes("a") {
+		for _, peq := range []string{"-", "s"} {
+			for bi, b := range append([]attr{{}}, shapes("b")...) {
+				for _, ceq := range []string{"-", "s"} {
+					if ceq == "s" && bi == 0 {
+						continue
+					}
+					for _, eit := range []string{"-", "f"} {
+						p := def{parent: -1, attrs: []attr{a}, eqKind: peq, eit: eit}
+						if peq == "s" {
+							p.eq = []string{"a"}
+						}
+						c := def{parent: 0, eqKind: ceq, eit: eit}
+						if bi > 0 {
+							c.attrs = []attr{b}
+						}
+						if ceq == "s" {
+							c.eq = []string{"b"}
+						}
+						defs := []def{p, c}
+						s := mkSpec(defs)
+						var acts []action
+						for t := 1; t >= 0; t-- {
+							pos := s.pos[t]
+							base := make([]val, len(pos))
+							var names []string
+							for i, q := range pos {
+								base[i] = val{k: "i", i: int64(2 + i)}
+								names = append(names, q.name)
+							}
+							acts = append(acts, action{op: "newpos", t: t, vals: base},
+								action{op: "newnamed", t: t, names: names, vals: base},
+								action{op: "newpos", t: t, vals: base[:s.req[t]]})
+							for j := range pos {
+								v := append([]val{}, base...)
+								v[j] = val{k: "i", i: 9}
+								acts = append(acts, action{op: "newpos", t: t, vals: v})
+							}
+						}
+						n := 0
+						for _, x := range acts {
+							if x.op == "newpos" || x.op == "newnamed" {
+								n++
+							}
+						}
+						for o := 1; o < n; o++ {
+							acts = append(acts, action{op: "eq", o: 0, o2: o})
+						}
+						acts = append(acts, action{op: "inithash", o: 0}, action{op: "inst", t: 0, o: 0}, action{op: "inst", t: 1, o: n - 1})
+						g.Emit(opLine(defs, acts))
+					}
+				}
+			}
+		}
+	}
+}
+
 // ---- entry --------------------------------------------------------------------------------------------------------------------
 
 func gen(g *core.G) {
 	exhaustive(g)
+	exhaustive2(g)
 	genTParam(g)
 	chains, perChain, tuples := 300, 4, 5
 	if g.Thorough() {
